@@ -253,7 +253,10 @@ class Parser:
             if self.accept("("):
                 items = []
                 while not self.at(")"):
-                    items.append(self.pattern())
+                    if self.accept(".."):
+                        items.append(("prest",))
+                    else:
+                        items.append(self.pattern())
                     if not self.accept(","):
                         break
                 self.expect(")")
@@ -445,7 +448,7 @@ class Parser:
                 stmts.append(("expr", e))
             elif self.at("}"):
                 tail = e
-            elif e[0] in ("if", "iflet", "match", "while", "for", "loop", "block"):
+            elif e[0] in ("if", "iflet", "match", "while", "whilelet", "for", "loop", "block"):
                 stmts.append(("expr", e))
             else:
                 raise Unsupported("line %d: `;` expected, found `%s`" % (self.peek()[2], self.peek()[1]))
@@ -573,8 +576,11 @@ class Parser:
             return ("match", scrut, arms)
         if self.at("while"):
             self.next()
-            if self.at("let"):
-                raise Unsupported("while let")
+            if self.accept("let"):
+                pat = self.pattern()
+                self.expect("=")
+                scrut = self.expr(nostruct=True)
+                return ("whilelet", pat, scrut, self.block())
             cond = self.expr(nostruct=True)
             return ("while", cond, self.block())
         if self.at("loop"):
@@ -1256,6 +1262,14 @@ class FnTranslator:
                 if info:
                     for a_, (_n, pt) in zip(x[2], [q for q in info["params"] if q[0] != "self"]):
                         setv(a_, pt)
+            if k == "mcall" and x[2] == "extend_from_slice" and x[3]:
+                at = self.ty_of(x[3][0], known)
+                if is_list(at):
+                    setv(x[1], T("Vec", at[2][0]))
+            if k == "mcall" and x[2] == "push" and x[3]:
+                at = self.ty_of(x[3][0], known)
+                if at is not None and self.ty_of(x[1], known) is None:
+                    setv(x[1], T("Vec", at))
             if k == "mcall":
                 rt = self.ty_of(x[1], known)
                 if rt and rt[0] == "ty":
@@ -1412,6 +1426,8 @@ class FnTranslator:
                         return T("Vec", bt) if bt else None
                     if m in ("last", "first"):
                         return T("Option", rt[2][0])
+                    if m == "get" and e[3] and e[3][0][0] == "range":
+                        return T("Option", T("slice", rt[2][0]))
                 if m == "clone":
                     return rt
             return None
@@ -1527,7 +1543,11 @@ class FnTranslator:
                 return "(%s_mk %s)" % (name, " ".join(self.pat(x, ft, env) for x, (_f, ft) in zip(p[2], fields)))
             ev = self.enum_variant(path)
             if ev:
-                return "(%s_%s %s)" % (ev[0], ev[1], " ".join(self.pat(x, t, env) for x, t in zip(p[2], ev[2])))
+                items = list(p[2])
+                if any(x[0] == "prest" for x in items):
+                    i_ = [x[0] for x in items].index("prest")
+                    items = items[:i_] + [("pwild",)] * (len(ev[2]) - len(items) + 1) + items[i_ + 1:]
+                return "(%s_%s %s)" % (ev[0], ev[1], " ".join(self.pat(x, t, env) for x, t in zip(items, ev[2])))
             raise Unsupported("pattern " + "::".join(path))
         if k == "pstruct":
             name = p[1][-1] if p[1][-1] != "Self" else self.impl
@@ -1718,6 +1738,14 @@ class FnTranslator:
                 raise Unsupported("closure argument of .%s" % m)
             if m == "collect" and not e[3]:
                 return self.pure(e[1], env)
+            if m == "get" and is_list(rt) and len(e[3]) == 1 and e[3][0][0] == "range" and not e[3][0][3] \
+                    and e[3][0][1] is not None and e[3][0][2] is not None:
+                r0 = self.pure(e[1], env)
+                lo = self.pure(e[3][0][1], env, T("usize"))
+                hi = self.pure(e[3][0][2], env, T("usize"))
+                if r0 is None or lo is None or hi is None:
+                    return None
+                return "(slice_range %s %s %s)" % (r0, lo, hi)
             if rt is not None and rt[0] == "ty" and rt[1] == "char" and m == "to_digit" and len(e[3]) == 1 and e[3][0] == ("int", 16, None):
                 r0 = self.pure(e[1], env)
                 return None if r0 is None else "(char_to_digit16 %s)" % r0
@@ -1813,7 +1841,9 @@ class FnTranslator:
             if src is not None and src[0] == "ty" and src[1] == "i32" and is_nat(dst):
                 if e[1][0] == "path" and self.c.const(e[1][1][-1]):
                     return "(Z.to_nat %s)" % a          # a non-negative constant
-                raise Unsupported("cast of a computed i32 to usize")
+                return "(i32_as_usize %s)" % a          # sign extension to 64 bits
+            if is_nat(src) and is_z(dst):
+                return "(usize_as_i32 %s)" % a          # truncation to 32 bits
             if is_int(dst) and (src is None or is_int(src)):
                 s_ = (src[1] if src else self.c.default_int)
                 width = {"u8": 8, "u32": 32, "usize": 64, "u64": 64, "char": 32}
@@ -2168,6 +2198,8 @@ class FnTranslator:
             return self.tr_while(e[1], e[2], env, k)
         if kind == "loop":
             return self.tr_while(("bool", True), e[1], env, k)
+        if kind == "whilelet":
+            return self.tr_while(None, e[3], env, k, whilelet=(e[1], e[2]))
         if kind == "for":
             return self.tr_for(e[1], e[2], e[3], env, k)
         if kind in ("iflet", "range", "strlit"):
@@ -2296,8 +2328,19 @@ class FnTranslator:
 
     in_loop_result = False
 
-    def tr_while(self, cond, body, env, k):
-        mut, free = self.loop_frame([cond, body], env)
+    def tr_while(self, cond, body, env, k, whilelet=None):
+        bound = set()
+        if whilelet is not None:
+            def pv(p_):
+                if p_[0] == "pbind":
+                    bound.add(p_[1])
+                for x in p_[1:]:
+                    if isinstance(x, list):
+                        for y in x:
+                            if isinstance(y, tuple):
+                                pv(y)
+            pv(whilelet[0])
+        mut, free = self.loop_frame([cond if whilelet is None else whilelet[1], body], env, extra_bound=bound)
         self.nloops += 1
         name = "%s_loop%d" % (self.coq_name, self.nloops)
         self.uses_fuel = True
@@ -2310,8 +2353,19 @@ class FnTranslator:
         self.ret_k = lambda v: "Some (LoopReturn %s)" % self.finish(v)
         self.break_k = lambda: "Some (LoopDone %s)" % self.tuple_of(mut)
         self.continue_k = lambda: call_again
-        body_code = self.tr(cond, env, lambda c: "if %s then\n%s\nelse Some (LoopDone %s)" % (
-            c, self.tr(body, env, lambda _v: call_again), self.tuple_of(mut)))
+        if whilelet is None:
+            body_code = self.tr(cond, env, lambda c: "if %s then\n%s\nelse Some (LoopDone %s)" % (
+                c, self.tr(body, env, lambda _v: call_again), self.tuple_of(mut)))
+        else:
+            wpat, wscrut = whilelet
+            st = self.ty_of(wscrut, env)
+
+            def after_scrut(v):
+                env2 = dict(env)
+                ps = self.pat(wpat, st, env2)
+                return "match %s with\n| %s =>\n%s\n| _ => Some (LoopDone %s)\nend" % (
+                    v, ps, self.tr(body, env2, lambda _v: call_again), self.tuple_of(mut))
+            body_code = self.tr(wscrut, env, after_scrut)
         self.ret_k, self.break_k, self.continue_k = saved
         self.aux.append("Fixpoint %s (fuel : nat)%s {struct fuel} : option %s :=\n  match fuel with\n  | O => None\n  | S fuel =>\n%s\n  end."
                         % (name, binders, rett, indent(peephole(body_code), 4)))
@@ -2389,7 +2443,7 @@ class FnTranslator:
         rty = self.c.coq_ty(self.full_ret)
         args = "".join(" " + var(n) for n, _t in self.params)
         body_pure = None
-        if not has_exit(self.body) and not has_kind(self.body, ("while", "for", "loop")) and not self.mutself:
+        if not has_exit(self.body) and not has_kind(self.body, ("while", "whilelet", "for", "loop")) and not self.mutself:
             body_pure = self.pure_block(self.body, env, self.ret)
         name = self.coq_name
         if body_pure is not None:
@@ -2623,6 +2677,18 @@ MODULES = {
                       (None, None, "str_lt"), (None, None, "str_le"), (None, None, "str_is_digit"),
                       (None, None, "str_to_code"), (None, None, "str_from_code"), (None, None, "str_to_int")],
     },
+    "StrSearchGen": {
+        "files": ["smt_strings.rs", "matcher.rs"],
+        "types": ["SmtString", "SearchResult"],
+        "consts": ["MAX_CHAR", "REPLACEMENT_CHAR", "MAX_LENGTH", "EMPTY"],
+        "functions": [("SmtString", None, "make"), ("SmtString", None, "make_from_slice"), ("SmtString", None, "len"),
+                      ("SmtString", None, "is_empty"), ("SmtString", "From<u32>", "from"),
+                      (None, None, "naive_search"), (None, None, "vector_prefix"), (None, None, "vector_suffix"),
+                      (None, None, "vector_concat"), (None, None, "find_sub_vector"),
+                      (None, None, "str_concat"), (None, None, "str_len"), (None, None, "str_at"), (None, None, "str_substr"),
+                      (None, None, "str_prefixof"), (None, None, "str_suffixof"), (None, None, "str_contains"),
+                      (None, None, "str_indexof"), (None, None, "str_replace"), (None, None, "str_replace_all")],
+    },
     "PartitionGen": {
         "files": ["character_sets.rs", "smt_strings.rs", "errors.rs"],
         "types": ["CharSet", "CoverResult", "ClassId", "Error", "CharPartition"],
@@ -2686,10 +2752,13 @@ def translate_module(name, repo):
     primary = sources[0]
     parsed = {}
     keyname = {}
+    src_of = {}
     for key in cfg["functions"]:
-        if key not in primary.fns:
-            raise Unsupported("function %s not found in %s" % ("::".join(x for x in key if x), cfg["files"][0]))
-        params, ret, body, mutself = primary.parse_fn(key)
+        owner = next((sr for sr in sources if key in sr.fns), None)
+        if owner is None:
+            raise Unsupported("function %s not found in %s" % ("::".join(x for x in key if x), ", ".join(cfg["files"])))
+        src_of[key] = owner
+        params, ret, body, mutself = owner.parse_fn(key)
         impl = key[0]
         coq = (impl + "_" if impl else "fn_") + key[2]
         fname = key[2]
@@ -2752,7 +2821,7 @@ def translate_module(name, repo):
     if pending:
         raise Unsupported("recursive or unresolved functions: %s" % pending)
     for key in order:
-        out.append("(* %s, line %d *)" % ("::".join(x for x in (key[0], key[2]) if x), primary.fns[key]["line"]))
+        out.append("(* %s, %s line %d *)" % ("::".join(x for x in (key[0], key[2]) if x), os.path.basename(src_of[key].path), src_of[key].fns[key]["line"]))
         out.append(done[key])
         out.append("")
     names = [ctx.fn_info[(k[0], keyname[k])]["coq"] for k in order]
